@@ -11,5 +11,10 @@ trap 'rm -rf "$W"' EXIT
 go build -o "$W/verif" ./cmd/verif || exit 1
 go build -tags verif -o "$W/inproc" ./cmd/inproc || exit 1
 go build -tags verif -o "$W/gleece" github.com/gopher-fleece/gleece/v2 || exit 1
+# the five engines + runtime + validator, plain and under the race detector: every check works on a
+# throw-away overlay of this base cache, so what is not warmed here is recompiled by each check
+go build -o "$W/warm" ./cmd/warm || exit 1
+go build -race -o "$W/warm-race" ./cmd/warm || exit 1
+go build -race -tags verif -o "$W/gleece-race" github.com/gopher-fleece/gleece/v2 || exit 1
 if [ -x "$VERIF/setup_extra.sh" ]; then "$VERIF/setup_extra.sh" "$W" || exit 1; fi
 echo "setup ok"
